@@ -21,6 +21,10 @@ import CLModel.Proofs.C13Build
 import CLModel.Proofs.C13Wins
 import CLModel.Proofs.C13Env
 import CLModel.Proofs.C13Fuel
+import CLModel.Props.C11
+import CLModel.Props.C12
+import CLModel.Proofs.C13MContracts
+import CLModel.Proofs.C13MExample
 namespace C13
 open PF
 
@@ -573,3 +577,264 @@ theorem dup_env_witness :
     · simp at hm
 
 end C13
+
+/-!
+## C13M — the `Matcher` contracts discharged: `ProjectFiles` on the `Matcher` MODEL
+
+Everything above keeps a `Matcher` abstract (`env : MEnv` is a table the harness fills from the real objects) and carries
+the `Matcher` contracts `PrefixOK` / `SubMatches` as hypotheses.  Below, `env` is COMPUTED: `PFM.menv ms` (Paths/ProjectFilesM.lean)
+evaluates the executable model of `Matcher` (Paths/Matcher.lean, C11/C12) on a table `ms` of matchers built from
+configuration TEXTS (`PFM.buildAll specs`: `Matcher(pattern, env, root)` then `with_env`), and `PFM.newM` is
+`ProjectFiles(locale, projects, mergebase)` on such a table (`ProjectFilesM`).  `PFM.Built specs ms` = the table was built
+from texts and every matcher is in the supported class (`prefix` returns, `re.compile` accepts the pattern, no
+`{android_locale}` group) — exactly what `newM` checks.
+
+What is left of the contracts:
+* `PFM.Rooted ms m` — the prefix contains a `/` (decidable per matcher; `ProjectConfig` roots every pattern);
+* `PFM.LiteralBound ms m` — IF the pattern is wildcard-free THEN all its variables are bound (forced: `literal_unbound_witness`);
+* `PFM.SubClassOn ms fs r` — the pattern class of `C11.sub_roundtrip_star_partial` for the reference files of the tree
+  (forced: `sub_class_witness`; this is why the restated theorems are `_partial`);
+* `hdup` — duplicates are duplicates (known finding F14, `C13.dup_env_witness`), unchanged.
+-/
+namespace C13M
+open PF PFM
+
+/-- **Prefix contract** (part (a) of `PrefixOK`), discharged by C12 `match_has_prefix`: for a table built from texts, whatever
+    a matcher matches starts with that matcher's `prefix`. -/
+theorem prefix_contract {specs : List MSpec} {ms : List PM.Matcher} (hb : Built specs ms) (m : MId) :
+    ∀ p g, (menv ms).mtch m p = some g → (menv ms).pfx m <+: p :=
+  prefix_holds hb m
+
+/-- **Literal contract** (part (c) of `PrefixOK`): a wildcard-free (`prefix_length == len(pattern)`), fully bound pattern
+    matches nothing but its own expansion, and that expansion is its `prefix` — what the `isfile(prefix)` shortcut of `_files`
+    relies on.  (From the anchoring `\Z` and the literal-like regex of a bound pattern: `PM.bound_matches_only_expansion`,
+    proved for nested values, repeated variables and `{android_locale}`.) -/
+theorem literal_contract {specs : List MSpec} {ms : List PM.Matcher} (hb : Built specs ms) {m : MId} {a : PM.Matcher}
+    (ha : ms[m]? = some a) (hlit : (menv ms).literal m = true) (hfull : FullyBound a) :
+    ∃ t, PM.expandPat (PM.expandVal (PM.fuelFor a.env)) a.pattern a.env true = .ok t ∧ a.prefix = .ok t ∧
+      (menv ms).pfx m = t ∧ ∀ p g, (menv ms).mtch m p = some g → p = t := by
+  obtain ⟨t, ht⟩ := hfull
+  rw [literal_eq ha] at hlit
+  have hlen : a.pattern.prefixLen = a.pattern.nodes.length := by simpa using hlit
+  have hp := PM.bound_literal_prefix (by omega) ht
+  refine ⟨t, ht, hp, pfx_eq ha hp, fun p g h => ?_⟩
+  obtain ⟨a', d, ha', hm, _⟩ := mtch_some h
+  rw [ha] at ha'
+  simp only [Option.some.injEq] at ha'
+  subst ha'
+  exact PM.bound_matches_only_expansion (hb.shape ha).1 (hb.shape ha).2 ht hm
+
+/-- … and it does match that expansion — PARTIAL: no variable occurs a second time (`NoRep`, the restriction of C12
+    `matches_own_expansion_partial`; the environment values likewise: `EnvOK`). -/
+theorem literal_matches_expansion_partial {specs : List MSpec} {ms : List PM.Matcher} (hb : Built specs ms) {m : MId}
+    {a : PM.Matcher} {t : PM.Text} (ha : ms[m]? = some a) (henv : PM.EnvOK a.env) (hnr : PM.NoRep a.pattern.nodes)
+    (ht : PM.expandPat (PM.expandVal (PM.fuelFor a.env)) a.pattern a.env true = .ok t) :
+    ((menv ms).mtch m t).isSome = true := by
+  have hu := hb.usable ha
+  have hre : ∃ re names, a.regexOf = .ok (re, names) := by
+    unfold PFM.usable Prep.usable prep at hu
+    simp only [Bool.and_eq_true] at hu
+    cases h : a.regexOf with
+    | error e => simp [h] at hu
+    | ok x => exact ⟨x.1, x.2, rfl⟩
+  obtain ⟨re, names, hre⟩ := hre
+  have hne := C12.matches_own_expansion_partial henv hnr ht hre
+  rcases PM.usable_match_ok hu t with h | ⟨d, h⟩
+  · exact absurd h hne
+  · rw [mtch_of_match ha h]; rfl
+
+/-- The `FullyBound` hypothesis of the literal contract is forced: `Matcher("/l/x{v}")` without a value for `v` is
+    wildcard-free, has the prefix "/l/x" and matches "/l/xy".  With the files `/l/x` and `/l/xy` the `isfile(prefix)` shortcut
+    of `_files` stops at the prefix file (which the pattern does not match): nothing is enumerated although `match("/l/xy")`
+    finds the file.  (The harness runs the real code on exactly this project: probe `literal-unbound`.) -/
+theorem literal_unbound_witness :
+    (match buildAll [{ pattern := PM.T "/l/x{v}", env := [], root := none, withEnv := none }] with
+     | .ok ms => ms.all usable && (menv ms).literal 0 && (menv ms).pfx 0 == PM.T "/l/x" &&
+         ((menv ms).mtch 0 (PM.T "/l/xy")).isSome &&
+         ((PF.mk (some de) [⟨0, none, none, []⟩] none).iter (menv ms) { files := [PM.T "/l/x", PM.T "/l/xy"] }).isEmpty &&
+         ((PF.mk (some de) [⟨0, none, none, []⟩] none).matchPath (menv ms) (PM.T "/l/xy")).isSome
+     | .error _ => false) = true := by decide +kernel
+
+/-- **`sub` contract — PARTIAL** (the pattern class of `C11.sub_roundtrip_star_partial`).  Let matcher `r` (a reference
+    pattern) and matcher `l` (an l10n pattern) be in that class for the wildcard values `vs` — top-level literals, `*`, `**/`,
+    final `**`, first occurrences of fully bound variables, the same wildcards, well-separated fillings, `Expandable`
+    environments (`C11R.Fillable`, `C11R.Expandable`).  Then on the path `pa` = `r`'s pattern filled with `vs`:
+    `r` matches `pa`; `expand l` of that match — `r.sub(l, pa)` — is `pb` = `l`'s pattern filled with `vs`; `l` matches `pb`
+    (this is `SubMatches`); and `l.sub(r, pb)` is `pa` again.
+    Full statement (not proved): the same for every matched path of any two matchers with the same wildcards — false in
+    general (`C11.roundtrip_separator_witness`, `C11.two_starstar_witness`, `sub_class_witness` below). -/
+theorem sub_contract_partial {ms : List PM.Matcher} {l r : MId} {a b : PM.Matcher} (hr : ms[r]? = some a)
+    (hl : ms[l]? = some b) {vs : Nat → PM.Text} {namesa namesb : List PM.Text} {rta rtb : PM.Text}
+    (ha : C11R.Fillable vs a namesa rta) (hb : C11R.Fillable vs b namesb rtb)
+    (hea : C11R.Expandable a) (heb : C11R.Expandable b)
+    (hsame : ∀ k, k ∈ a.pattern.nodes.filterMap C11R.wildNum ↔ k ∈ b.pattern.nodes.filterMap C11R.wildNum) :
+    ∃ g g', (menv ms).mtch r (rta ++ C11R.fillN vs a.env a.pattern.nodes) = some g ∧
+      (menv ms).expand l g = rtb ++ C11R.fillN vs b.env b.pattern.nodes ∧
+      (menv ms).mtch l ((menv ms).expand l g) = some g' ∧
+      (menv ms).expand r g' = rta ++ C11R.fillN vs a.env a.pattern.nodes := by
+  obtain ⟨s1, s2, ⟨da, hma⟩, ⟨db, hmb⟩⟩ := C11.sub_roundtrip_star_partial ha hb hea heb hsame
+  refine ⟨encode (r :: (rta ++ C11R.fillN vs a.env a.pattern.nodes)),
+    encode (l :: (rtb ++ C11R.fillN vs b.env b.pattern.nodes)), mtch_of_match hr hma, expand_eq hr hl s1, ?_, ?_⟩
+  · rw [expand_eq hr hl s1]; exact mtch_of_match hl hmb
+  · exact expand_eq hl hr s2
+
+/-- The three parts of `PrefixOK` for the computed relation: (a) always, (b) = `Rooted`, (c) from `LiteralBound`. -/
+theorem prefixOK_M {specs : List MSpec} {ms : List PM.Matcher} (hb : Built specs ms) {m : MId}
+    (hroot : Rooted ms m) (hfull : LiteralBound ms m) : PrefixOK (menv ms) m :=
+  prefixOK_holds hb hroot hfull
+
+/-- `ProjectFilesM` really is `ProjectFiles` on the computed relation: a successful `newM` gives a table in the supported
+    class, `o.env` is the relation computed from it and `o.pf` is what `PF.new` builds on it; `iterM` / `matchM` return the
+    model's enumeration / lookup unless a `sub` call raised. -/
+theorem newM_spec {specs : List MSpec} {locale : Option Loc} {projects : List Config} {mb : Bool} {o : Obj}
+    (h : newM specs locale projects mb = .ok o) :
+    Built specs o.ms ∧ o.env = menv o.ms ∧ PF.new o.env locale projects mb = .ok o.pf ∧
+    (∀ fs its, o.iterM fs = .ok its → its = o.pf.iter o.env fs) ∧
+    (∀ p r, o.matchM p = .ok r → r = o.pf.matchPath o.env p) := by
+  obtain ⟨h1, h2, h3⟩ := newM_ok h
+  exact ⟨h1, h2, h2 ▸ h3, fun _ _ => iterM_ok, fun _ _ => matchM_ok⟩
+
+/-- **Completeness, l10n side, for `ProjectFilesM` — PARTIAL** (`C13.iter_complete_partial` with `PrefixOK` discharged).
+    An existing, non-excluded file `p` matched by the l10n matcher of a gated rule `pr` is enumerated.  Left: the matchers are
+    rooted; a wildcard-free pattern is fully bound; and `hdup`, duplicates are duplicates (F14).  Full statement = without
+    `hdup` (false for the Python code). -/
+theorem iter_complete_M_partial {specs : List MSpec} {locale : Option Loc} {projects : List Config} {mb : Bool} {o : Obj}
+    (hnew : newM specs locale projects mb = .ok o) (hloc : truthy locale = true) {fs : FS}
+    {pr : PathRule} {p : Path} {g : GId}
+    (hpr : pr ∈ gated locale (collect locale projects).1) (hm : o.env.mtch pr.l10n p = some g)
+    (hp : p ∈ fs.files) (hex : excludedBy o.env o.pf.exclude p = false)
+    (hroot : ∀ r ∈ o.pf.matchers, Rooted o.ms r.l10n) (hlit : ∀ r ∈ o.pf.matchers, LiteralBound o.ms r.l10n)
+    (hdup : ∀ r ∈ o.pf.matchers, (o.env.realpfx r.l10n, o.env.pat r.l10n) = (o.env.realpfx pr.l10n, o.env.pat pr.l10n) →
+      (o.env.mtch r.l10n p).isSome = (o.env.mtch pr.l10n p).isSome) :
+    ∃ it ∈ o.pf.iter o.env fs, it.path = p := by
+  obtain ⟨hb, he, hpf⟩ := newM_ok hnew
+  rw [he] at hm hex hdup ⊢
+  exact C13.iter_complete_partial hpf hloc hpr hm hp hex
+    (fun r hr => prefixOK_holds hb (hroot r hr) (hlit r hr)) hdup
+
+/-- **Last rule wins, for `ProjectFilesM` — PARTIAL** (`C13.last_rule_wins_partial` with `PrefixOK` discharged and
+    `SubMatches` replaced by the pattern class on the reference files of the tree).  Left: `r`'s l10n matcher is rooted
+    (and fully bound if wildcard-free), the later rules are in the `sub` class, and `hdup` (F14). -/
+theorem last_rule_wins_M_partial {specs : List MSpec} {locale : Option Loc} {projects : List Config} {mb : Bool} {o : Obj}
+    (hnew : newM specs locale projects mb = .ok o) (hloc : truthy locale = true) {fs : FS}
+    {before after : List Rule} {r : Rule} {p : Path} {g : GId}
+    (hrs : mkRules locale mb (gated locale (collect locale projects).1) = .ok (before ++ r :: after))
+    (hlast : ∀ x ∈ after, o.env.mtch x.l10n p = none) (hm : o.env.mtch r.l10n p = some g)
+    (hp : p ∈ fs.files) (hex : excludedBy o.env o.pf.exclude p = false)
+    (hroot : Rooted o.ms r.l10n) (hlit : LiteralBound o.ms r.l10n)
+    (hsub : ∀ x ∈ after, SubClassOn o.ms fs x)
+    (hdup : ∀ x ∈ after, sameKey o.env x r = true → (o.env.mtch x.l10n p).isSome = true) :
+    ({ path := p, reference := r.reference.map (o.env.expand · g), merge := r.merge.map (o.env.expand · g),
+       test := mergedTests o.env r before.reverse } : Item) ∈ o.pf.iter o.env fs ∧
+    ∀ x ∈ r.test, x ∈ mergedTests o.env r before.reverse := by
+  obtain ⟨hb, he, hpf⟩ := newM_ok hnew
+  rw [he] at hlast hm hex hdup ⊢
+  exact last_rule_wins_on hpf hloc hrs hlast hm hp hex (prefixOK_holds hb hroot hlit)
+    (fun x hx => subMatchesOn_of_class (hsub x hx)) hdup
+
+/-- **Enumeration = lookup, on the `Matcher` model — PARTIAL** (`C13.iter_eq_match` with `PrefixOK` discharged and `SubMatches`
+    replaced by the pattern class).  For an existing localized file `p` (excluded or not) that no reference matcher matches:
+    `list(pf)` has an item for `p` exactly when `pf.match(p)` returns it. -/
+theorem iter_eq_match_M_partial {specs : List MSpec} {ms : List PM.Matcher} (hb : Built specs ms) {fs : FS} {pf : PF}
+    {p : Path} {it : Item} (hloc : truthy pf.locale = true) (hp : p ∈ fs.files)
+    (hroot : ∀ r ∈ pf.matchers, Rooted ms r.l10n) (hlit : ∀ r ∈ pf.matchers, LiteralBound ms r.l10n)
+    (hsub : ∀ r ∈ pf.matchers, SubClassOn ms fs r)
+    (hnr : ∀ r ∈ pf.matchers, ∀ rm, r.reference = some rm → (menv ms).mtch rm p = none) :
+    (it ∈ pf.iter (menv ms) fs ∧ it.path = p) ↔ pf.matchPath (menv ms) p = some it :=
+  iter_eq_match_on hloc hp (fun r hr => prefixOK_holds hb (hroot r hr) (hlit r hr))
+    (fun r hr => subMatchesOn_of_class (hsub r hr)) hnr
+
+/-- **Validation mode is complete, on the `Matcher` model** (`C13.validation_complete` with `PrefixOK` discharged): every
+    existing reference file matched by a reference matcher of the object is yielded. -/
+theorem validation_complete_M {specs : List MSpec} {ms : List PM.Matcher} (hb : Built specs ms) {fs : FS} {pf : PF}
+    (hloc : truthy pf.locale = false) {r : Rule} {rm : MId} {q : Path} {g : GId} (hr : r ∈ pf.matchers)
+    (hrr : r.reference = some rm) (hq : q ∈ fs.files) (hm : (menv ms).mtch rm q = some g)
+    (hroot : Rooted ms rm) (hlit : LiteralBound ms rm) :
+    ∃ it ∈ pf.iter (menv ms) fs, it.path = (menv ms).expand rm g :=
+  C13.validation_complete hloc hr hrr hq hm (prefixOK_holds hb hroot hlit)
+
+/-! ### non-vacuity: a tiny project given as pattern texts (`PFM.tinySpecs`, `PFM.tinyCfg`, `PFM.tinyFS`)
+
+Rule A: l10n `{l}browser/**/*.ftl` (`l` = `{l10n_base}/{locale}/`, `l10n_base` = `/l10n`, bound to the locale by `with_env`),
+reference `browser/locales/en-US/**/*.ftl`, test 7.  Rule B: the wildcard-free `{l10n_base}/de/README`.  An excluded config
+with `/l10n/de/browser/x/*.ftl`.  Files: the reference file `browser/locales/en-US/a/b/c.d.ftl`, its localized partner
+`/l10n/de/browser/a/b/c.d.ftl`, `/l10n/de/README`, and `/l10n/de/browser/x/y.ftl` (covered by rule A, excluded). -/
+
+/-- the composed model evaluated: regexes are built from the texts, run on the four files, `sub` maps across; the excluded
+    file is neither enumerated nor looked up; the lookup by reference path gives the same tuple -/
+example : onOkM (newM tinySpecs (some de) [tinyCfg] false) (fun o =>
+      (o.pf.matchers, okOf (o.iterM tinyFS), [fRef, fL10n, fLit, fExcl].map (fun p => okOf (o.matchM p)))) = some (
+    [⟨2, none, none, []⟩, ⟨0, some 1, none, [7]⟩],
+    some [{ path := fLit, reference := none, merge := none, test := [] },
+          { path := fL10n, reference := some fRef, merge := none, test := [7] }],
+    [some (some { path := fL10n, reference := some fRef, merge := none, test := [7] }),
+     some (some { path := fL10n, reference := some fRef, merge := none, test := [7] }),
+     some (some { path := fLit, reference := none, merge := none, test := [] }),
+     some none]) := by decide +kernel
+
+/-- … and validation mode (`ProjectFiles(None, …)`) on the same texts -/
+example : onOkM (newM tinySpecs none [tinyCfg] false) (fun o => okOf (o.iterM tinyFS)) =
+    some (some [{ path := fRef, reference := some fRef, merge := none, test := [7] }]) := by decide +kernel
+
+/-- every hypothesis of the restated theorems holds on the tiny project (table built from texts, all four matchers rooted,
+    the wildcard-free one fully bound, rule A in the `sub` class via `C11R.refMatcher_ok` / `C11R.wildMatcher_ok`), so
+    `iter_eq_match_M_partial` applies to the localized file: -/
+example (pf : PF) (hpf : pf = .mk (some de) [⟨2, none, none, []⟩, ⟨0, some 1, none, [7]⟩] none) (it : Item) :
+    (it ∈ pf.iter (menv tinyMs) tinyFS ∧ it.path = fL10n) ↔ pf.matchPath (menv tinyMs) fL10n = some it := by
+  subst hpf
+  refine iter_eq_match_M_partial tiny_built rfl (by decide) ?_ (fun r _ => tiny_literalBound r.l10n) ?_ ?_
+  · intro r hr
+    simp only [PF.matchers, List.mem_cons, List.not_mem_nil, or_false] at hr
+    rcases hr with rfl | rfl
+    · exact tiny_rooted 2 (by decide)
+    · exact tiny_rooted 0 (by decide)
+  · intro r hr
+    simp only [PF.matchers, List.mem_cons, List.not_mem_nil, or_false] at hr
+    rcases hr with rfl | rfl
+    · intro rm a q d hrr; cases hrr
+    · exact tiny_subClass
+  · intro r hr rm hrr
+    simp only [PF.matchers, List.mem_cons, List.not_mem_nil, or_false] at hr
+    rcases hr with rfl | rfl
+    · cases hrr
+    · simp only [Option.some.injEq] at hrr
+      subst hrr
+      exact mtch_none_of_match tiny_get1 (by
+        have h : (match C11R.refMatcher.match fL10n with | .ok none => true | _ => false) = true := by decide +kernel
+        split at h <;> first | assumption | cases h)
+
+/-- the `sub` contract on the tiny project: reference file → localized file → reference file -/
+example : ∃ g g', (menv tinyMs).mtch 1 fRef = some g ∧ (menv tinyMs).expand 0 g = fL10n ∧
+    (menv tinyMs).mtch 0 ((menv tinyMs).expand 0 g) = some g' ∧ (menv tinyMs).expand 1 g' = fRef := by
+  obtain ⟨⟨na, fa⟩, ea⟩ := C11R.refMatcher_ok
+  obtain ⟨⟨nb, fb⟩, eb⟩ := C11R.wildMatcher_ok
+  have h := sub_contract_partial (ms := tinyMs) tiny_get1 tiny_get0 fa fb ea eb C11R.wild_same
+  rw [C11R.ref_fill, C11R.wild_fill] at h
+  exact h
+
+/-- the literal contract on the tiny project: `{l10n_base}/de/README` matches `/l10n/de/README` only -/
+example : ∀ p g, (menv tinyMs).mtch 2 p = some g → p = fLit := by
+  obtain ⟨t, ht, _, h3, h4⟩ := literal_contract tiny_built tiny_get2 (by decide +kernel) (fullyBound_spec (by decide +kernel))
+  have : t = fLit := by
+    have h : ((menv tinyMs).pfx 2 == fLit) = true := by decide +kernel
+    rw [← h3]; simpa using h
+  subst this
+  exact h4
+
+/-! ### negation witness for the pattern class -/
+
+/-- Outside the `sub` class the round trip — and with it "enumeration = lookup" — fails: reference `/r/**`, l10n `/l/*`.
+    The reference file `/r/a/b.ftl` is mapped to `/l/a/b.ftl`, which the l10n pattern does not match (`*` does not cross
+    `/`): the enumeration yields `/l/a/b.ftl`, an existing file, while `match("/l/a/b.ftl")` is `None`.
+    (The harness runs the real code on exactly this project: probe `sub-class`.) -/
+theorem sub_class_witness :
+    (match buildAll [{ pattern := PM.T "/l/*", env := [], root := none, withEnv := none },
+                     { pattern := PM.T "/r/**", env := [], root := none, withEnv := none }] with
+     | .ok ms =>
+       ms.all usable &&
+       ((PF.mk (some de) [⟨0, some 1, none, []⟩] none).iter (menv ms) { files := [PM.T "/r/a/b.ftl", PM.T "/l/a/b.ftl"] }).map (·.path)
+         == [PM.T "/l/a/b.ftl"] &&
+       ((PF.mk (some de) [⟨0, some 1, none, []⟩] none).matchPath (menv ms) (PM.T "/l/a/b.ftl")).isNone
+     | .error _ => false) = true := by decide +kernel
+
+end C13M
